@@ -188,6 +188,9 @@ class SourceDataWrapper(ABC):
             Structured numpy.ndarray objects with the consecutive chunks of the source data.
         """
 
+        if chunk_rows is not None and chunk_rows < 1:
+            raise ValueError(f"Chunk size must be a positive number of rows; got {chunk_rows}")
+
         if chunk_rows is None:
             chunk_rows = self._n_rows
             n_full_chunks = 1
